@@ -14,3 +14,11 @@ Definition resolution_check (par : parents) (bs : list rb) (refs : list (N * N))
         | _, _ => true
         end
     end) refs.
+
+(* the reservation scope of the real table is the set renamer.reservation_scope is modelled to build (Model/Resolve.v, rscope) *)
+Definition subsetN (a b : list N) : bool := forallb (fun x => existsb (N.eqb x) b) a.
+Definition rscope_check (par : parents) (bs : list rb) (refs : list (N * N)) : bool :=
+  forallb (fun b =>
+    let sites := map snd (filter (fun r => N.eqb (fst r) (r_id b)) refs) in
+    let m := rscope 80 par (r_owner b) sites in
+    subsetN m (r_scope b) && subsetN (r_scope b) m) bs.
